@@ -515,7 +515,14 @@ type connPlan struct {
 	// (a cache entry the server will not accept any more): the resumption attempt must fail cleanly, the entry must be
 	// evicted, and the connection after it must complete with a full handshake
 	Tamper bool
+	// VName: Config.InsecureServerNameToVerify — 0 unset, 1 "*" (verify the chain, no host name), 2 another name the
+	// leaf covers, 3 a name it does not cover. SkipTime: Config.InsecureSkipTimeVerify.
+	VName    int
+	SkipTime bool
 }
+
+var vnameStr = []string{"", "*", "b.test", "other.invalid"}
+var vnameID = []int{0, 999999, 2, 77}
 
 type connObs struct {
 	Plan           connPlan
@@ -655,11 +662,14 @@ func (w *world) connect(pl connPlan) (o connObs) {
 	o.Identity = serverNames[pl.Name]
 	if o.Identity == "" {
 		o.Identity = "@" + s.ln.Addr().String()
-		pl.SkipVerify = true // a hello without ServerName is refused unless verification is off
+		if pl.VName == 0 {
+			pl.SkipVerify = true // a hello with neither ServerName nor InsecureServerNameToVerify is refused unless verification is off
+		}
 		o.Plan = pl
 	}
 	cfg := &tls.Config{ServerName: serverNames[pl.Name], RootCAs: w.pk.pool, ClientSessionCache: w.cache,
-		Time: w.clk.now, OmitEmptyPsk: pl.OmitEmpty, InsecureSkipVerify: pl.SkipVerify}
+		Time: w.clk.now, OmitEmptyPsk: pl.OmitEmpty, InsecureSkipVerify: pl.SkipVerify,
+		InsecureServerNameToVerify: vnameStr[pl.VName], InsecureSkipTimeVerify: pl.SkipTime}
 	id := pl.P.ID
 	if id.Seed != nil { // fresh copy: the library writes Weights into the id
 		sd := *id.Seed
